@@ -15,6 +15,7 @@ Record tx_obs := { o_class : nat; o_err : nat; o_delta : table; o_reg : regtable
 
 Inductive cstep :=
 | CParams (p : params) (accepted : bool)      (* observed: did UpdateParams accept it *)
+| CGenesis (p : params) (accepted : bool)     (* observed: did InitGenesis accept it (no panic) *)
 | CAdmin (c : addr) (a : option addr)
 | CBlock (bal : table)            (* balances re-read after EndBlock/BeginBlock *)
 | CTx (t : txin) (o : tx_obs).
@@ -42,7 +43,7 @@ Definition registry_of (rt : regtable) : registry :=
   flat_map (fun kv => match snd kv with Some e => [(fst kv, e)] | None => [] end) rt.
 
 Definition init_state (c : case) : state :=
-  {| s_params := default_params; s_wasm := c_wasm c; s_reg := registry_of (c_reg0 c); s_bank := tlookup (c_bal0 c) |}.
+  {| s_params := default_params; s_store := default_params; s_wasm := c_wasm c; s_reg := registry_of (c_reg0 c); s_bank := tlookup (c_bal0 c) |}.
 
 (** the nil dereference on a missing contract surfaces as a recovered panic; a proper
     "unauthorized / not found" error would be the same class for the property *)
@@ -59,9 +60,10 @@ Definition tx_mismatch (c : case) (st st' : state) (out : txout) (o : tx_obs) : 
 Fixpoint run_mismatch (c : case) (st : state) (steps : list cstep) : bool :=
   match steps with
   | [] => false
-  | CParams p ok :: r => negb (Bool.eqb (params_valid p) ok) || run_mismatch c (step_env st (SetParams p)) r
-  | CAdmin k a :: r => run_mismatch c (step_env st (SetAdmin k a)) r
-  | CBlock bal :: r => run_mismatch c (step_env st (Resync (tlookup bal))) r
+  | CParams p ok :: r => negb (Bool.eqb (params_valid p) ok) || run_mismatch c (step_env (c_env c) st (SetParams p)) r
+  | CGenesis p ok :: r => negb (Bool.eqb (params_valid p) ok) || run_mismatch c (step_env (c_env c) st (Genesis p)) r
+  | CAdmin k a :: r => run_mismatch c (step_env (c_env c) st (SetAdmin k a)) r
+  | CBlock bal :: r => run_mismatch c (step_env (c_env c) st (Resync (tlookup bal))) r
   | CTx t o :: r =>
       let '(st', out) := step_tx (c_env c) st t in
       tx_mismatch c st st' out o || run_mismatch c st' r
@@ -69,12 +71,14 @@ Fixpoint run_mismatch (c : case) (st : state) (steps : list cstep) : bool :=
 
 Definition mismatch (c : case) : bool := run_mismatch c (init_state c) (c_steps c).
 
-(** the property on the OBSERVED trace: params / contract infos follow the inputs, the registry
-    before a tx is the registry observed after the previous one *)
+(** the property on the OBSERVED trace: the params are the ones AS SET by the last accepted
+    MsgUpdateParams / genesis of the input (never what the keeper reads back), contract infos
+    follow the inputs, the registry before a tx is the registry observed after the previous one *)
 Fixpoint run_violates (E : env) (p : params) (W : wasm) (rb : regtable) (steps : list cstep) : bool :=
   match steps with
   | [] => false
   | CParams p' ok :: r => run_violates E (if ok then p' else p) W rb r
+  | CGenesis p' ok :: r => run_violates E (if ok then p' else p) W rb r
   | CAdmin k a :: r => run_violates E p (wasm_set_admin W k a) rb r
   | CBlock _ :: r => run_violates E p W rb r
   | CTx t o :: r =>
